@@ -61,6 +61,7 @@ def main():
     ap.add_argument("--selftest")
     ap.add_argument("--digests", action="store_true")
     ap.add_argument("--seeds")
+    ap.add_argument("--stage", type=int, default=None, help="with --digests: an extra stage of the property instead of its main engine")
     ap.add_argument("--no-evidence", action="store_true")
     ap.add_argument("--only-key", default=None, help="debug: only report violation groups whose key contains this")
     ap.add_argument("--budget", type=float, default=None, help="wall-clock budget in seconds")
